@@ -45,30 +45,38 @@ SPEC = {
     "lean_modules": ["TrustVerif.Props.C05"],
     "translators": [translate_hash_uses],
     "tiers": {
-        "quick": {"cases": 48, "extra": {"children": 4, "cycles": 10}},
-        "thorough": {"cases": 1200, "extra": {"children": 5, "cycles": 16}},
+        "quick": {"cases": 40, "extra": {"children": 4, "cycles": 10}},
+        "thorough": {"cases": 1000, "extra": {"children": 5, "cycles": 16}},
     },
     "timeout": 7200,
     # The compared observables are the container bytes and the per-cycle dumps (variables, outputs,
-    # faults, events) of independent OS processes; the model side of every `x…` op is the property's own
-    # statement (`agree`: all processes observed the same value), so a disagreement is a failing input.
+    # faults, events) of independent OS processes; the model side of every `x...` op is the property's own
+    # statement (`agree`: all processes observed the same value, proved equivalent to the pairwise
+    # quantifier in c05_agree_iff_pairwise), so a disagreement is a failing input.  `pouindex`, `vtables`
+    # and `strtab` compare the decoded container of the parent with the proved models of PouIdMap,
+    # method_table_for and StringInterner.
     "disagreement_is_violation": True,
-    "rule": "case = generated multi-file ST project (types, functions, function blocks with methods and "
-            "inheritance, classes, interfaces, globals, several programs, optional CONFIGURATION with tasks) x "
-            "generated trace (dt incl. 0, BOOL/DINT inputs per cycle); every case is compiled and run in the parent "
-            "and in >= 4 freshly spawned child processes; non-trivial = the container interned >= 24 strings, has "
-            ">= 6 POUs and >= 8 cycles ran in every process; distinct = by hash of the case's operation lines",
+    "rule": "case = generated multi-file ST project (enums, structs, array aliases, functions, function blocks with "
+            "methods/inheritance/standard FBs, classes, interfaces, plain/direct-addressed globals, 1-6 programs, "
+            "CONFIGURATION with 0-3 tasks, 1 in 5 three times larger, 1 in 16 deliberately ill-typed) x generated trace "
+            "(dt incl. 0 and sub-ms, BOOL/DINT inputs, direct inputs, 1 in 6 with a warm/cold restart); every case is "
+            "compiled and run twice in the parent (two threads) and once in each of >= 4 freshly spawned child processes; "
+            "non-trivial = the container interned >= 24 strings, has >= 6 POUs and >= 8 cycles ran in every process; "
+            "distinct = by hash of the case's operation lines",
     "trusted_base": [
-        "Lean 4.33.0 kernel; axioms per theorem listed under 'theorems'",
-        "hand-written model lean/TrustVerif/Model/C05.lean of StringInterner, PouIdMap, the POU emission order, "
-        "method_table_for and alloc_for_temp_pairs, tied by this run's correspondence on the decoded container",
+        "Lean 4.33.0 kernel; axioms per theorem listed under 'theorems' (propext, Quot.sound only)",
+        "hand-written model lean/TrustVerif/Model/C05.lean (hash map with arbitrary layout, lookup-only client code, "
+        "StringInterner, PouIdMap + POU emission order, method_table_for, type_index, ref_index_for, file_path_index, "
+        "alloc_for_temp_pairs, duplicate-name sets, hierarchical I/O map); PouIdMap, method tables and the interner "
+        "are tied by this run's correspondence on the decoded container, the others only by the scanned table",
         "translator checks/c05_scan.py (syntactic scan of trust-runtime's compile and execution path - bytecode/**, "
         "harness/**, runtime/**, eval/**, stdlib/**, value/**, debug/**, memory.rs, io.rs, instance.rs, task.rs, ... - "
         "for HashMap/HashSet bindings and the operations applied to them, and of trust-hir/trust-syntax for any std hash "
         "container; receiver resolution is by name and declared type, see level_note)",
         "two hand-reviewed order-exposing uses (`reviewedBenign` in Model/C05.lean), each backed by a Lean theorem "
         "about a model of that loop (commuting updates; retain with a pure predicate)",
-        "Rust harness vharness c05 (project generator, child-process protocol, canonical per-cycle dump)",
+        "Rust harness vharness c05 (project generator, child-process protocol, canonical per-cycle dump, FNV-1a "
+        "128-bit digests standing for equality of observations)",
         "std::collections::HashMap/HashSet are lawful finite maps whose only process-dependent behaviour is their "
         "iteration order; rustc_hash::FxHashMap has no per-process seed; IndexMap iterates in insertion order",
     ],
@@ -77,30 +85,42 @@ SPEC = {
         "only set by the `trust-runtime test` command)",
         "no metrics sink / retain store / I/O driver is attached (they are outside the cycle's pure part)",
         "REAL/LREAL values are compared bit-for-bit across processes of the same binary on the same machine only",
+        "failed compilations are compared by class (rejected in every process); diagnostics text is measured, not asserted",
     ],
 }
 
 MANIFEST = {
     "technique": "Lean 4 proof that lookup-only client code of a hash map is independent of the map's internal order "
-                 "(simulation with an order-free semantics) + generated table of every hash-map operation in the "
-                 "anchored files checked by `decide` + cross-process differential runs (bytes and per-cycle dumps)",
-    "level_text": "Proved for every layout function, every key set and every request sequence (no bound): client code that "
-                  "touches a hash map only through get/contains/insert/entry/remove/len computes the result of an order-free "
-                  "semantics (c05_lookup_only); the string interner yields exactly the distinct requests in first-seen order "
-                  "(c05_intern_order_free); PouIdMap ids and the POU emission order are the positions in the IndexMap "
-                  "iteration order (c05_pou_index_closed_form); iteration really exposes the order (c05_iter_exposes_order). "
-                  "The generated table of all HashMap/HashSet operations in bytecode/encoder/*, bytecode/encode.rs, "
-                  "runtime/*, memory.rs, io.rs and harness/build.rs contains only order-free operations "
-                  "(c05_no_order_exposure, re-proved by `decide` on every run). Each run compiles generated projects in the "
-                  "parent and in >= 4 fresh OS processes (different RandomState, ASLR, heap pre-fill, thread, wall clock) and "
-                  "compares container bytes, and runs the same trace in each and compares per-cycle variables, outputs, "
-                  "faults and runtime events.",
-    "level_note": "Partial by design: the encoder and the evaluator as a whole are not modelled; their determinism is "
-                  "argued from the proved lookup-only lemma + the scanned table (a syntactic approximation: receivers are "
-                  "resolved by name and declared type; hash maps outside the anchored files, e.g. in trust-hir or the "
-                  "harness lowering, are covered only by the cross-process runs) and tested across processes. Wall-clock "
-                  "independence is argued from EvalContext.now being the only time source (execution_deadline = None) and "
-                  "tested. Trusted: Lean kernel, the scan, the Rust harness, std/IndexMap/FxHashMap semantics.",
+                 "(simulation with an order-free semantics), closed forms of the interner and of PouIdMap, a generated "
+                 "table of every hash-container operation on the compile/execute path checked by `decide` on every run, "
+                 "and cross-process differential runs (container bytes and per-cycle dumps) of generated projects",
+    "level_text": "Proved for every layout function (an arbitrary permutation after every mutation), every key set and every "
+                  "request sequence, without bound: client code that touches hash maps only through "
+                  "get/contains/insert/entry/remove/len computes the result of a semantics in which maps have no order "
+                  "(c05_lookup_only, _pair, _from) and iteration really exposes the order (c05_iter_exposes_order); the "
+                  "string interner returns exactly the distinct requests in first-seen order (c05_intern_order_free); "
+                  "PouIdMap ids and the POU emission order are the positions in the IndexMap iteration order "
+                  "(c05_pou_index_closed_form); vtables, type table, ref/string/debug tables, FOR temporaries, duplicate-name "
+                  "detection and hierarchical I/O are layout-independent (c05_*_order_free); per-cycle environment "
+                  "independence lifts to whole traces (c05_trace_env_free). The table of all HashMap/HashSet operations in "
+                  "trust-runtime's compile and execution path, regenerated from the sources on every run, contains only "
+                  "order-free operations plus two reviewed loops whose order-independence is proved on a model "
+                  "(c05_no_order_exposure, c05_reviewed_*), and trust-hir/trust-syntax contain no std hash container "
+                  "(c05_front_end_std_hash_free). Each run compiles generated projects in the parent (twice) and in >= 4 fresh "
+                  "OS processes (different RandomState, ASLR, heap pre-fill, thread, environment size, wall-clock pacing) and "
+                  "compares container bytes; runs the same input/clock trace in each and compares, per cycle, all globals, "
+                  "retained values, instances, I/O images, direct addresses, faults, overrun counters and runtime events; and "
+                  "compares the decoded POU index, method tables and string table with the proved models.",
+    "level_note": "Partial by design: the encoder and the evaluator as a whole are not modelled; their determinism is argued "
+                  "from the proved lookup-only lemma + the scanned table and is tested across processes. The scan is "
+                  "syntactic: receivers are resolved by name, declared type and constructor; a field access on an untyped "
+                  "receiver whose field name is shared with a non-hash struct is listed as ambiguous (4 rows, all in "
+                  "order-free contexts; in an iterating context it fails closed); macros and trait-object indirection are not "
+                  "followed. FxHashMap iteration is trusted to be seed-free (a pointer-keyed Fx map would be layout "
+                  "dependent; only the cross-process runs would see that). Wall-clock independence is argued from "
+                  "EvalContext.now being the only time source (execution_deadline = None) and tested by pacing some children. "
+                  "Memory-layout independence is tested only through ASLR, different heap pre-fill and thread stacks. "
+                  "Trusted: Lean kernel, the scan, the Rust harness, std/IndexMap/FxHashMap semantics.",
 }
 
 
